@@ -92,12 +92,15 @@ Theorem C19_chain_invocation_order : forall (tags : list nat) (logging : bool),
 Proof. exact build_tags_invocation_order. Qed.
 Print Assumptions C19_chain_invocation_order.
 
-(* ---- the generated client's timeout.  Repaired branch: equal to the
-   configured one, for every conf *)
-Theorem C19_client_timeout : forall (M : Type) (F : fenv) (r : conf M),
+(* ---- the generated client's timeout.  THE PROPERTY'S SENTENCE "the client's HTTP timeout equals the
+   configured timeout" IS FALSE OF /repo (open finding K_rest_timeout, golden-locked): the template
+   multiplies the configured time.Duration by time.Second in int64.  What is proved is the exact
+   extent of the defect (next two theorems); the model's repaired branch is the identity by
+   definition, stated only so that the combined theorem below can speak about both trees. *)
+Theorem C19_repaired_branch_is_identity : forall (M : Type) (F : fenv) (r : conf M),
   F K_rest_timeout = false -> client_timeout F r = c_timeout r.
 Proof. exact (@client_timeout_ideal). Qed.
-Print Assumptions C19_client_timeout.
+Print Assumptions C19_repaired_branch_is_identity.
 
 (* with the defect present (Duration(conf.Timeout()) * time.Second in int64)
    the client's timeout equals the configured one only for Timeout(0) *)
